@@ -15,8 +15,8 @@
 #include <stdarg.h>
 
 #define NEDGE 6
-#define NKIND 6
-#define NSIG 5
+#define NKIND 8
+#define NSIG 8
 static int thorough_p; static int seq_len_max = 4; static uint64_t n_seq, n_prog;
 static uint64_t pow3[6] = {1, 3, 9, 27, 81, 243};
 
@@ -36,17 +36,27 @@ typedef int64_t (*t3_t) (int64_t, int8_t, uint16_t, int32_t, float, uint32_t);
 typedef int64_t (*t4_t) (int64_t, ...);
 static int64_t ecb3 (void *fn, int64_t x) { lg (50, x); int64_t r = ((t3_t) fn) (x, (int8_t) -100, (uint16_t) 65000, -70000, 1.75f, 4000000000u); lg (51, r); return r + 3; }
 static int64_t ecb4 (void *fn, int64_t x) { lg (60, x); int64_t r = ((t4_t) fn) (x, (int64_t) 9, 0.75); lg (61, r); return r + 3; }
+struct BI { int64_t a, b; }; struct BI8 { int64_t a; }; struct BS { double a, b; };
+typedef int64_t (*t5_t) (int64_t, int64_t, int64_t, int64_t, struct BI);
+typedef int64_t (*t6_t) (int64_t, int64_t, int64_t, int64_t, int64_t, struct BI8);
+typedef int64_t (*t7_t) (int64_t, double, double, double, double, double, double, struct BS);
+static int64_t ecb5 (void *fn, int64_t x) { lg (70, x); struct BI b = {41, -17}; int64_t r = ((t5_t) fn) (x, 2, 3, 4, b); lg (71, r); return r + 3; }
+static int64_t ecb6 (void *fn, int64_t x) { lg (80, x); struct BI8 b = {123456789}; int64_t r = ((t6_t) fn) (x, 2, 3, 4, 5, b); lg (81, r); return r + 3; }
+static int64_t ecb7 (void *fn, int64_t x) { lg (90, x); struct BS b = {6.5, -3.25}; int64_t r = ((t7_t) fn) (x, 0.5, 1.5, 2.5, 3.5, 4.5, 5.5, b); lg (91, r); return r + 3; }
 static int64_t enat (int64_t x) { lg (40, x); return x * 5 + 2; }
 
 /* ---------------- program text ---------------- */
 static const char *SIG_PARAMS[] = {"i64:x", "i64:x, d:y, i64:z, d:w", "i64:x, i64:i1, i64:i2, i64:i3, i64:i4, i64:i5, i64:i6, d:d0, d:d1, d:d2, d:d3, d:d4, d:d5, d:d6, d:d7, d:d8",
-                                   "i64:x, i8:c, u16:h, i32:w, f:fl, u32:uw", "i64:x, ..."};
+                                   "i64:x, i8:c, u16:h, i32:w, f:fl, u32:uw", "i64:x, ...",
+                                   /* a block passed in the last general / vector argument registers */
+                                   "i64:x, i64:i1, i64:i2, i64:i3, blk1:16(bp)", "i64:x, i64:i1, i64:i2, i64:i3, i64:i4, blk1:8(bp)", "i64:x, d:d0, d:d1, d:d2, d:d3, d:d4, d:d5, blk2:16(bp)"};
 /* arguments used by t when it calls itself / its partner with a new first argument %s */
-static const char *SIG_SELF[] = {"%s", "%s, y, z, w", "%s, i1, i2, i3, i4, i5, i6, d0, d1, d2, d3, d4, d5, d6, d7, d8", "%s, c, h, w, fl, uw", "%s, z, y"};
+static const char *SIG_SELF[] = {"%s", "%s, y, z, w", "%s, i1, i2, i3, i4, i5, i6, d0, d1, d2, d3, d4, d5, d6, d7, d8", "%s, c, h, w, fl, uw", "%s, z, y", "%s, i1, i2, i3, blk1:16(bp)", "%s, i1, i2, i3, i4, blk1:8(bp)", "%s, d0, d1, d2, d3, d4, d5, blk2:16(bp)"};
 /* arguments used by an entry (i64:a, d:u) with first argument %s */
 static const char *SIG_ENTRY[] = {"%s", "%s, u, 7, -1.25", "%s, 1, 2, 3, 4, 5, 6, u, 1.5, 2.5, 3.5, 4.5, 5.5, 6.5, 7.5, 8.5",
                                   /* narrow parameters receive values with set upper bits: the prototype type decides what the callee sees */
-                                  "%s, 1311768467294899589, 1311768467294912510, 1311768469169962492, 2.5f, 1311768469169962492", "%s, 7, u"};
+                                  "%s, 1311768467294899589, 1311768467294912510, 1311768469169962492, 2.5f, 1311768469169962492", "%s, 7, u",
+                                  "%s, 2, 3, 4, blk1:16(bk)", "%s, 2, 3, 4, 5, blk1:8(bk)", "%s, u, 1.5, 2.5, 3.5, 4.5, 5.5, blk2:16(bk)"};
 static void args (char *buf, size_t n, const char *tmpl, const char *first) { snprintf (buf, n, tmpl, first); }
 
 /* v = weighted sum of all parameters: any argument that arrives damaged changes v */
@@ -54,6 +64,9 @@ static void emit_v (int sig) {
   if (sig == 4) S ("  alloca va, 32\n  va_start va\n  va_arg t1, va, i64:0\n  mov z, i64:(t1)\n  va_arg t1, va, d:0\n  dmov y, d:(t1)\n  va_end va\n");
   S ("  mov v, x\n");
   if (sig == 4) S ("  mul t1, z, 3\n  add v, v, t1\n  dmul dt, y, 4.0\n  d2i t1, dt\n  add v, v, t1\n");
+  if (sig == 5) S ("  mul t1, i1, 3\n  add v, v, t1\n  mul t1, i2, 5\n  add v, v, t1\n  mul t1, i3, 7\n  add v, v, t1\n  mov t1, i64:(bp)\n  mul t1, t1, 11\n  add v, v, t1\n  mov t1, i64:8(bp)\n  mul t1, t1, 13\n  add v, v, t1\n");
+  if (sig == 6) S ("  mul t1, i1, 3\n  add v, v, t1\n  mul t1, i2, 5\n  add v, v, t1\n  mul t1, i3, 7\n  add v, v, t1\n  mul t1, i4, 9\n  add v, v, t1\n  mov t1, i64:(bp)\n  mul t1, t1, 11\n  add v, v, t1\n");
+  if (sig == 7) { for (int k = 0; k <= 5; k++) S ("  dmul dt, d%d, 2.0\n  d2i t1, dt\n  mul t1, t1, %d\n  add v, v, t1\n", k, k + 3); S ("  dmul dt, d:(bp), 4.0\n  d2i t1, dt\n  mul t1, t1, 17\n  add v, v, t1\n  dmul dt, d:8(bp), 4.0\n  d2i t1, dt\n  mul t1, t1, 19\n  add v, v, t1\n"); }
   if (sig == 3) S ("  mul t1, c, 3\n  add v, v, t1\n  mul t1, h, 5\n  add v, v, t1\n  mul t1, w, 7\n  add v, v, t1\n  mul t1, uw, 11\n  add v, v, t1\n  f2d dt, fl\n  dmul dt, dt, 4.0\n  d2i t1, dt\n  add v, v, t1\n");
   if (sig == 1) S ("  mul t1, z, 3\n  add v, v, t1\n  dmul dt, y, 4.0\n  d2i t1, dt\n  add v, v, t1\n  dmul dt, w, 8.0\n  d2i t1, dt\n  add v, v, t1\n");
   if (sig == 2) {
@@ -63,11 +76,12 @@ static void emit_v (int sig) {
 }
 static void render (int edge, int kind, int sig) {
   char self_dec[200], self_x[200], ent_a[200], ent_a1[200];
+  const char *blk_init = sig == 5 ? "  alloca bk, 16\n  mov i64:(bk), 41\n  mov i64:8(bk), -17\n" : sig == 6 ? "  alloca bk, 16\n  mov i64:(bk), 123456789\n" : sig == 7 ? "  alloca bk, 16\n  dmov d:(bk), 6.5\n  dmov d:8(bk), -3.25\n" : "";
   args (self_dec, sizeof self_dec, SIG_SELF[sig], "n"); args (self_x, sizeof self_x, SIG_SELF[sig], "x"); args (ent_a, sizeof ent_a, SIG_ENTRY[sig], "a"); args (ent_a1, sizeof ent_a1, SIG_ENTRY[sig], "b");
   ptl = 0;
   /* ---------------- module m2: state, target t, entry eb ---------------- */
   S ("m2: module\nexport st, t, eb\nimport u, enat, ecb\np_t: proto i64, %s\np_nat: proto i64, i64:x\np_cb: proto i64, p:fn, i64:x\nst: i64 0\n", SIG_PARAMS[sig]);
-  S ("t: func i64, %s\n  local i64:v, i64:t1, i64:n, i64:r, i64:la, i64:k, d:dt%s\n", SIG_PARAMS[sig], sig == 4 ? ", i64:va, i64:z, d:y" : "");
+  S ("t: func i64, %s\n  local i64:v, i64:t1, i64:n, i64:r, i64:la, i64:k, d:dt, d:dq, f:f1, f:f2, ld:l1, ld:l2%s\n", SIG_PARAMS[sig], sig == 4 ? ", i64:va, i64:z, d:y" : "");
   emit_v (sig);
   switch (kind) {
   case 0: S ("  mul r, v, 7\n  add r, r, 1\n  ret r\n"); break;
@@ -75,16 +89,27 @@ static void render (int edge, int kind, int sig) {
   case 2: S ("  and n, x, 7\n  ble T0, n, 0\n  sub n, n, 1\n  call p_t, u, r, %s\n  mul r, r, 3\n  add r, r, v\n  ret r\nT0:\n  ret v\n", self_dec); break; /* mutual recursion through u in m1 */
   case 3: S ("  and n, x, 1\n  laddr la, TA\n  beq T1, n, 0\n  laddr la, TB\nT1:\n  jmpi la\nTA:\n  mul r, v, 11\n  ret r\nTB:\n  sub r, 5, v\n  ret r\n"); break;
   case 4: S ("  mov r, 0\n  and k, x, 3\n  add k, k, 1\nTL:\n  and n, k, 3\n  switch n, S0, S1, S2, S0\nS0:\n  add r, r, v\n  jmp TN\nS1:\n  mul r, r, 3\n  add r, r, 1\n  jmp TN\nS2:\n  xor r, r, v\nTN:\n  sub k, k, 1\n  bgt TL, k, 0\n  ret r\n"); break;
+  case 6: { /* every floating point branch, both outcomes, executed repeatedly: successor blocks are generated in data dependent order */
+    S ("  mov r, 0\n  mov k, 4\nTL:\n  and n, v, 3\n  i2d dt, n\n  i2d dq, k\n  d2f f1, dt\n  d2f f2, dq\n  d2ld l1, dt\n  d2ld l2, dq\n");
+    static const char *FB[] = {"beq", "bne", "blt", "ble", "bgt", "bge"}; int w = 1;
+    for (int ty = 0; ty < 3; ty++) for (int b = 0; b < 6; b++, w++)
+      S ("  %s%s F%d, %s, %s\n  add r, r, %d\n  jmp G%d\nF%d:\n  mul r, r, 3\n  add r, r, %d\nG%d:\n", ty == 0 ? "d" : ty == 1 ? "f" : "ld", FB[b], w, ty == 0 ? "dt" : ty == 1 ? "f1" : "l1", ty == 0 ? "dq" : ty == 1 ? "f2" : "l2", w, w, w, w * 5, w);
+    S ("  sub k, k, 1\n  bgt TL, k, 0\n  ret r\n"); break; }
+  case 7: { /* every integer compare-and-branch code in a loop */
+    S ("  mov r, 0\n  mov k, 4\nTL:\n  and n, v, 3\n  sub n, n, 1\n");
+    static const char *IB[] = {"beq", "beqs", "bne", "bnes", "blt", "blts", "ublt", "ublts", "ble", "bles", "uble", "ubles", "bgt", "bgts", "ubgt", "ubgts", "bge", "bges", "ubge", "ubges"};
+    for (int b = 0; b < 20; b++) S ("  %s F%d, n, k\n  add r, r, %d\n  jmp G%d\nF%d:\n  mul r, r, 3\n  add r, r, %d\nG%d:\n", IB[b], b, b + 1, b, b, b * 5 + 2, b);
+    S ("  bt F30, n\n  add r, r, 77\nF30:\n  bf F31, n\n  add r, r, 99\nF31:\n  sub k, k, 1\n  bgt TL, k, 0\n  ret r\n"); break; }
   default: S ("  call p_nat, enat, r, v\n  and n, x, 3\n  ble T0, n, 0\n  sub n, n, 1\n  mov la, t\n  call p_cb, ecb, t1, la, n\n  add r, r, t1\nT0:\n  ret r\n"); break;       /* native call, then native callback re-entering t */
   }
   S ("endfunc\n");
-  S ("eb: func i64, i64:a, d:u\n  local i64:r, i64:s, i64:b, i64:sp\n  add b, a, 2\n  call p_t, t, r, %s\n  mov sp, st\n  mov s, i64:(sp)\n  mul s, s, 31\n  add s, s, 2\n  add s, s, r\n  mov i64:(sp), s\n  ret r\nendfunc\nendmodule\n", ent_a1);
+  S ("eb: func i64, i64:a, d:u\n  local i64:r, i64:s, i64:b, i64:sp, i64:bk\n%s  add b, a, 2\n  call p_t, t, r, %s\n  mov sp, st\n  mov s, i64:(sp)\n  mul s, s, 31\n  add s, s, 2\n  add s, s, r\n  mov i64:(sp), s\n  ret r\nendfunc\nendmodule\n", blk_init, ent_a1);
   /* ---------------- module m1: partner u, entries ea and ec ---------------- */
   S ("m1: module\nexport u, ea, ec\nimport st, t, eb, ecb\np_t: proto i64, %s\np_e: proto i64, i64:a, d:u\np_cb: proto i64, p:fn, i64:x\ntab: ref t, 0\n", SIG_PARAMS[sig]);
   S ("u: func i64, %s\n  local i64:v, i64:t1, i64:n, i64:r, d:dt%s\n", SIG_PARAMS[sig], sig == 4 ? ", i64:va, i64:z, d:y" : "");
   emit_v (sig);
   S ("  and n, x, 7\n  ble U0, n, 0\n  sub n, n, 1\n  call p_t, t, r, %s\n  add r, r, 1\n  ret r\nU0:\n  add r, v, 100\n  ret r\nendfunc\n", self_dec);
-  S ("ea: func i64, i64:a, d:u\n  local i64:r, i64:s, i64:fp, i64:k, i64:t1, i64:sp\n");
+  S ("ea: func i64, i64:a, d:u\n  local i64:r, i64:s, i64:fp, i64:k, i64:t1, i64:sp, i64:bk\n%s", blk_init);
   switch (edge) {
   case 0: S ("  call p_t, t, r, %s\n", ent_a); break;
   case 1: S ("  mov fp, t\n  call p_t, fp, r, %s\n", ent_a); break;
@@ -106,8 +131,8 @@ void drv_init (int thorough) {
 uint64_t drv_ncases (void) { return n_prog * n_seq; }
 static int decode_seq (uint64_t s, int *seq) { int l = 1; while (s >= pow3[l]) { s -= pow3[l]; l++; } for (int i = 0; i < l; i++) { seq[i] = s % 3; s /= 3; } return l; }
 static const char *EDGE_N[] = {"direct-call", "call-through-register", "call-through-data-item", "native-callback", "inline", "direct-call-in-loop"};
-static const char *KIND_N[] = {"leaf", "self-recursion", "mutual-recursion-across-modules", "laddr-jmpi", "switch-loop", "native-call-and-callback"};
-static const char *SIG_N[] = {"1-int", "2-int-2-double", "7-int-9-double", "narrow-ints-and-float", "variadic"};
+static const char *KIND_N[] = {"leaf", "self-recursion", "mutual-recursion-across-modules", "laddr-jmpi", "switch-loop", "native-call-and-callback", "fp-branches-loop", "int-branches-loop"};
+static const char *SIG_N[] = {"1-int", "2-int-2-double", "7-int-9-double", "narrow-ints-and-float", "variadic", "block-in-last-two-int-regs", "block-in-last-int-reg", "block-in-last-two-vector-regs"};
 void drv_describe (uint64_t idx, char *buf, size_t n) {
   uint64_t p = idx / n_seq, s = idx % n_seq; int seq[6], l = decode_seq (s, seq); char ss[16]; for (int i = 0; i < l; i++) ss[i] = "ABC"[seq[i]]; ss[l] = 0;
   snprintf (buf, n, "C03 edge=%s target=%s signature=%s history=%s", EDGE_N[p % NEDGE], KIND_N[p / NEDGE % NKIND], SIG_N[p / NEDGE / NKIND], ss);
@@ -120,7 +145,7 @@ static void run_history (int edge, int kind, int sig, const int *seq, int l, mh_
   memset (o, 0, sizeof *o); clog_n = 0;
   mh_ctx mc; mh_open (&mc);
   if (mh_scan (&mc, PT) != 0) { o->err = 1; snprintf (o->msg, sizeof o->msg, "scan: %s", mc.errmsg); mh_close (&mc); return; }
-  MIR_load_external (mc.ctx, "ecb", sig == 0 ? (void *) ecb0 : sig == 1 ? (void *) ecb1 : sig == 2 ? (void *) ecb2 : sig == 3 ? (void *) ecb3 : (void *) ecb4); MIR_load_external (mc.ctx, "enat", (void *) enat);
+  MIR_load_external (mc.ctx, "ecb", sig == 0 ? (void *) ecb0 : sig == 1 ? (void *) ecb1 : sig == 2 ? (void *) ecb2 : sig == 3 ? (void *) ecb3 : sig == 4 ? (void *) ecb4 : sig == 5 ? (void *) ecb5 : sig == 6 ? (void *) ecb6 : (void *) ecb7); MIR_load_external (mc.ctx, "enat", (void *) enat);
   if (e >= E_GEN0 && e <= E_GEN3) e = (mh_engine) (E_GEN0 + opt);
   if (mh_link (&mc, e) != 0) { o->err = 1; snprintf (o->msg, sizeof o->msg, "link: %s", mc.errmsg); mh_close (&mc); return; }
   if ((e == E_LAZY || e == E_LAZYBB) && opt != 2) MIR_gen_set_optimize_level (mc.ctx, (unsigned) opt);
